@@ -54,11 +54,12 @@ def run(ctx):
                                          itpos='rotate' if q else [0, 1, 2], modes='priv4',
                                          mpu=(i % 4 == 3), cfg=CONFIGS[i % len(CONFIGS)][1])))
     nw = 1500 if q else 30000
+    cw = S.class_word_list(ctx.seed, 3 if q else 30)
     for i in range(16):
         name, over = CONFIGS[i % len(CONFIGS)]
         tasks.append((S.sweep_words, dict(name='words-%s-%d' % (name, i), seed=ctx.seed + 100 + i, modes='priv4',
                                           mpu=(i % 8 >= 4), cfg=over,
-                                          words=S.random_words(random.Random(ctx.seed * 31 + i), nw))))
+                                          words=S.random_words(random.Random(ctx.seed * 31 + i), nw, classes=cw))))
     for i in range(8):
         name, over = CONFIGS[i % len(CONFIGS)]
         tasks.append((program_task, dict(name='prog-%s-%d' % (name, i), seed=ctx.seed + 200 + i, modes='priv4',
